@@ -108,6 +108,50 @@ pub fn tag_name(r: &mut Rng, w: &[u32; 4]) -> (String, bool, bool) {
     (instantiate(t.t, r), t.sem, t.pep)
 }
 
+/// Several tags that share one X.Y.Z and differ in the suffix only: the ordering of the tags on
+/// one commit (numeric vs alphanumeric identifiers, rc.9 vs rc.10, pre vs post, build metadata,
+/// `v` prefix) decides which *name* is the highest.
+pub fn sibling_tags(r: &mut Rng) -> Vec<String> {
+    let (x, y, z) = (small(r), small(r), small(r));
+    let base = format!("{x}.{y}.{z}");
+    let n1 = *r.pick(&[1u64, 2, 9]);
+    let pool: Vec<String> = vec![
+        base.clone(),
+        format!("v{base}"),
+        format!("{base}-rc.{n1}"),
+        format!("{base}-rc.{}", n1 + 1),
+        format!("v{base}-rc.{}", n1 * 10 + 1),
+        format!("{base}-rc.{n1}.post.{}", r.below(12)),
+        format!("{base}-alpha.{}", r.below(12)),
+        format!("{base}-alpha"),
+        format!("{base}-beta.{}", 9 + r.below(3)),
+        format!("{base}-a.{}", r.below(3)),
+        format!("{base}-{}", r.below(12)),
+        format!("{base}-dev.{}", r.below(12)),
+        format!("{base}-post.{}", r.below(12)),
+        format!("{base}+build.{}", r.below(12)),
+        format!("v{base}+exp.sha.5114f85"),
+        format!("{base}-rc-{n1}"),
+        format!("{base}-x.y"),
+        format!("{base}-alpha.beta"),
+        format!("{base}rc{n1}"),
+        format!("{base}.post{}", r.below(12)),
+        format!("{base}.dev{}", r.below(12)),
+        format!("1!{base}"),
+        format!("{base}.0"),
+        format!("0{base}"),
+    ];
+    let k = 2 + r.below(5) as usize;
+    let mut out: Vec<String> = vec![];
+    while out.len() < k {
+        let t = r.pick(&pool).clone();
+        if !out.contains(&t) {
+            out.push(t);
+        }
+    }
+    out
+}
+
 pub const RULE_BRANCHES: &[&str] = &[
     "develop", "release/1", "release/1/x", "release/x", "release/2.3", "feature/login", "feature/x/y/z", "hotfix/urgent",
     "dev", "staging", "release", "release/", "releases/1", "bugfix/77",
@@ -156,8 +200,20 @@ pub fn branch_name(r: &mut Rng, classes: u32) -> String {
         8 => {
             let n = 60 + r.below(150) as usize;
             let mut s = String::from("long/");
-            for i in 0..n {
-                s.push((b'a' + ((i as u64 + r.below(3)) % 26) as u8) as char);
+            if r.chance(1, 2) {
+                // long and non-ASCII: multi-byte characters at every byte offset class (file names are
+                // limited to 255 bytes per component)
+                let unit = *r.pick(&["日本", "é", "ж", "🚀"]);
+                for k in 0..r.below(3) {
+                    s.push((b'a' + k as u8) as char);
+                }
+                while s.len() + unit.len() < 5 + (n.min(230)) {
+                    s.push_str(unit);
+                }
+            } else {
+                for i in 0..n {
+                    s.push((b'a' + ((i as u64 + r.below(3)) % 26) as u8) as char);
+                }
             }
             s
         }
